@@ -361,15 +361,20 @@ func (s *scheduler) announceLoop() {
 	s.announcer.Ticker(s.done)
 }
 
-func (s *scheduler) announce(d core.Digest, h core.InfoHash, complete bool) {
+// announce announces the torrent and reports the outcome as an event. immediate
+// marks announces which were not handed out by the announce queue (new and
+// completed torrents announce right away): their outcome must not touch the
+// queue's bookkeeping, else a torrent whose queued announce is still in flight
+// would be marked ready again.
+func (s *scheduler) announce(d core.Digest, h core.InfoHash, complete bool, immediate bool) {
 	peers, err := s.announcer.Announce(d, h, complete)
 	if err != nil {
 		if err != announceclient.ErrDisabled {
-			s.eventLoop.send(announceErrEvent{h, err})
+			s.eventLoop.send(announceErrEvent{h, err, immediate})
 		}
 		return
 	}
-	s.eventLoop.send(announceResultEvent{h, peers})
+	s.eventLoop.send(announceResultEvent{h, peers, immediate})
 }
 
 func (s *scheduler) failIncomingHandshake(pc *conn.PendingConn, err error) {
